@@ -626,7 +626,7 @@ PROPS = {
         "level": "other", "explanation": "", "assumptions": [],
     },
     "C13": {
-        "module": "DnsModel.Theorems.C13", "theorems": [],
+        "module": "DnsModel.Theorems.C13", "theorems": ["Dns.C13.synth_total", "Dns.C13.rawNameFromStr_total"],
         "families": [{"name": "synth", "quick": 6000, "thorough": 400000}, {"name": "synth-insert", "quick": 1200, "thorough": 40000}],
         "oracle": oracle_c13, "nontrivial": lambda c, a: a.startswith("ok") or " ok b=" in a, "shrink": False,
         "rule": "record texts: 60% grammar-derived over the nine types with boundary values (TTL 0/2^32-1/2^32, 62/63-byte labels, 253/254-byte names, TXT 255/256/3825/3826 bytes and escapes, preference 65535/65536, digests of even/odd/zero length, 14 IPv6 forms), 30% single-token damage, 10% arbitrary bytes; plus insertion of the synthesised record into a valid response; non-trivial = distinct texts that synthesise",
@@ -654,7 +654,7 @@ PROPS = {
         "level": "proof", "explanation": "", "assumptions": ["thread_local! gives each thread its own cell (what the schedules probe)"],
     },
     "C17": {
-        "module": "DnsModel.Theorems.C17", "theorems": [],
+        "module": "DnsModel.Theorems.C17", "theorems": ["Dns.C17.session"],
         "families": [{"name": "session", "quick": 400, "thorough": 20000}],
         "oracle": oracle_c17, "nontrivial": lambda c, a: " ok " in a, "shrink": False,
         "rule": "sessions of 2-7 calls (parse, uncompress, compress, rename, synth; one call repeated): each alone on a fresh thread, all back to back twice on one thread, all concurrently on 4 threads in rotated orders; outputs compared byte for byte with each other and with the model",
@@ -732,7 +732,7 @@ MANIFEST_TEXT = {
             "note": NOTE, "technique": "exhaustive small-scope correspondence + walk oracle"},
     "C12": {"text": "Lean theorems for all header words and all arguments: set_flags changes only bytes 2-3, keeps opcode and rcode (div/mod by position), sets each of QR AA TC RD RA Z AD CD to the argument's bit and ignores the argument's upper half; set_opcode / set_rcode / set_response / set_tid change only their field; every getter returns the stored field. Real behaviour compared with the model and with the frame condition computed from RFC 1035 field positions, exhaustively over all 65536 flag words in the thorough tier.",
             "note": NOTE, "technique": "exhaustive correspondence over flag words + div/mod oracle"},
-    "C13": {"text": "Deterministic recogniser mirroring the chomp combinator tree + builders; real synthesis compared with the model and with an independent Python synthesiser of the RFC 1035 wire form on grammar-derived, damaged and arbitrary texts, and the result inserted into valid packets." + PENDING,
+    "C13": {"text": "Proved: synthesis is total (every byte string gives a record or an error value; so does the host-name conversion). Not proved: the grammar round-trip. Deterministic recogniser mirroring the chomp combinator tree + builders; real synthesis compared with the model and with an independent Python synthesiser of the RFC 1035 wire form on grammar-derived, damaged and arbitrary texts, and the result inserted into valid packets." + PENDING,
             "note": NOTE + " chomp1 combinator semantics read from the vendored source; Ipv6Addr::from_str modelled.", "technique": "model/implementation correspondence + reference synthesiser oracle"},
     "C14": {"text": "Model of copy_raw_name_from_str; exhaustive over a 7-symbol alphabet up to length 4 (quick) / 6 (thorough) with and without zone, boundary lengths; every accepted name is given to a record and read back." + PENDING,
             "note": NOTE, "technique": "exhaustive small-alphabet correspondence + label oracle"},
